@@ -93,6 +93,10 @@ def reseal(data, hascrc):
     return bytes(data)
 
 
+def _T(*a, **k):
+    return (a, k)
+
+
 def generate(tier, seed, ctx):
     rng = random.Random(seed)
     q = tier == 'quick'
@@ -101,12 +105,12 @@ def generate(tier, seed, ctx):
         valid += [(name, e) for e in ctx['mc'].get(name, [])]
     rng.shuffle(valid)
     keep = valid[:2500] if q else valid[:30000]
-    out = []
+    tasks = []
     for name, e in keep:
         f = e['f']
-        out.append(parse(bytes(e['bytes']), 'valid', '%s %s s%d o%d%s%s%s%s roots=%s' % (
+        tasks.append(_T(bytes(e['bytes']), 'valid', '%s %s s%d o%d%s%s%s%s roots=%s' % (
             name, f['magic'], f['size'], f['offb'], ' idx' if f['idx'] else '', ' crc' if f['crc'] else '',
-            ' cache' if f['cache'] else '', ' wh' if f['wh'] else '', e['roots']), again=(len(out) % 3 == 0 or len(e['roots']) > 1)))
+            ' cache' if f['cache'] else '', ' wh' if f['wh'] else '', e['roots']), again=(len(tasks) % 3 == 0 or len(e['roots']) > 1)))
     # corruptions
     base = [e for _, e in keep if not e['f']['wh']]
     crcs = [e for e in base if (e['f']['magic'] == 'generic' and e['f']['crc']) or e['f']['magic'] == 'idxcrc']
@@ -115,16 +119,16 @@ def generate(tier, seed, ctx):
         data = bytes(e['bytes'])
         pts = range(len(data)) if k < full_n else rng.sample(range(len(data)), 3)
         for n in pts:
-            out.append(parse(data[:n], 'truncated'))
+            tasks.append(_T(data[:n], 'truncated'))
         for tail in ([b'\x00', b'\xff\xff', b'\x00\x00\x00', b'\xb5\xee\x9c\x72'] if k < full_n * 3 else [bytes([rng.getrandbits(8)])]):
-            out.append(parse(data + tail, 'extended'))
+            tasks.append(_T(data + tail, 'extended'))
     for k, e in enumerate(rng.sample(crcs, min(len(crcs), 120 if q else 2500))):
         data = bytearray(e['bytes'])
         bits = range(8 * len(data)) if k < (3 if q else 40) else rng.sample(range(8 * len(data)), 6)
         for b in bits:
             d = bytearray(data)
             d[b // 8] ^= 0x80 >> (b % 8)
-            out.append(parse(bytes(d), 'bitflip_crc'))
+            tasks.append(_T(bytes(d), 'bitflip_crc'))
     for e in rng.sample(base, min(len(base), 250 if q else 5000)):
         data = bytearray(e['bytes'])
         hascrc = (e['f']['magic'] == 'generic' and e['f']['crc']) or e['f']['magic'] == 'idxcrc'
@@ -134,8 +138,10 @@ def generate(tier, seed, ctx):
                     continue
                 d = bytearray(data)
                 d[pos:pos + size] = target.to_bytes(size, 'big')
-                out.append(parse(reseal(d, hascrc), cls))
-    return out
+                tasks.append(_T(reseal(d, hascrc), cls))
+    # valid and corrupted inputs in one shuffled stream: a refused input leaves nothing behind that the next parse could see
+    rng.shuffle(tasks)
+    return [parse(*a, **k) for a, k in tasks]
 
 
 def canary(r, rng):
